@@ -373,6 +373,9 @@ def eval_cases(ctx: Ctx, kernel: str, imports: list, cases: list, chunk: int = 4
     k["cases"] += len(cases)
     k["disagreements"] += len(bad_idx)
     ctx.count("evaluations", len(cases))
+    stale = os.path.join(WORK, f"last_disagreements_{ctx.prop}_{kernel}.json")
+    if not bad_idx and os.path.exists(stale):
+        os.remove(stale)
     if bad_idx:
         bad_idx.sort()
         metas = [cases[i].meta for i in bad_idx[:50]]
